@@ -11,6 +11,7 @@ _Bool nondet_bool(void); int64_t nondet_i64(void); opt__Bool nondet_opt_bool(voi
 opt_ResourcePressure nondet_opt_rp(void); opt_double nondet_opt_double(void); str_t nondet_str(void);
 CgroupContext g_cg;                 /* the cgroup Senpai is working on (matched by its `cgroup` argument) */
 uint64_t g_high_writes, g_reclaim_writes, g_resets; int64_t g_last_high_value, g_prev_high_value; _Bool g_last_high_is_tmp; int64_t g_last_tmp_secs; int64_t g_reclaim_value;
+_Bool g_w_ok;        /* whether the most recent write to a control file succeeded (false: the cgroup is gone) */
 opt_int64_t g_floor, g_ceil; opt__Bool g_has_tmp, g_has_reclaim;
 SystemContext g_sys; opt_int64_t g_swap_max; opt_double g_swap_util; opt_ResourcePressure g_mem_some, g_io_some; opt_int64_t g_usage;
 Fs_DirFd CgroupContext__fd(CgroupContext c) { return (Fs_DirFd)c; }
@@ -29,32 +30,35 @@ opt_int64_t Senpai__getLimitMaxBytes(Senpai *s, CgroupContext c) { return g_ceil
 static inline dur_us_t dur_us_t__from__dur_s_t(dur_s_t d) { dur_us_t r; r.us = d.s; return r; }   /* only the count of seconds is compared below */
 maybe_Unit Fs__writeMemhighAt(Fs_DirFd fd, int64_t v)
 { __CPROVER_assert((CgroupContext)fd == g_cg, "memory.high is written in the targeted cgroup's directory only"); /*@C18*/
-  g_high_writes = g_high_writes + 1; g_prev_high_value = g_last_high_value; g_last_high_value = v; g_last_high_is_tmp = 0; return nondet_maybe_unit(); }
+  g_high_writes = g_high_writes + 1; g_prev_high_value = g_last_high_value; g_last_high_value = v; g_last_high_is_tmp = 0; maybe_Unit r = nondet_maybe_unit(); g_w_ok = r.ok != 0; return r; }
 maybe_Unit Fs__writeMemhightmpAt(Fs_DirFd fd, int64_t v, dur_us_t t)
 { __CPROVER_assert((CgroupContext)fd == g_cg, "memory.high.tmp is written in the targeted cgroup's directory only"); /*@C18*/
-  g_high_writes = g_high_writes + 1; g_prev_high_value = g_last_high_value; g_last_high_value = v; g_last_high_is_tmp = 1; g_last_tmp_secs = t.us; return nondet_maybe_unit(); }
+  g_high_writes = g_high_writes + 1; g_prev_high_value = g_last_high_value; g_last_high_value = v; g_last_high_is_tmp = 1; g_last_tmp_secs = t.us; maybe_Unit r = nondet_maybe_unit(); g_w_ok = r.ok != 0; return r; }
 maybe_Unit Fs__writeMemReclaimAt(Fs_DirFd fd, int64_t v)
 { __CPROVER_assert((CgroupContext)fd == g_cg, "memory.reclaim is written in the targeted cgroup's directory only"); /*@C18*/
-  g_reclaim_writes = g_reclaim_writes + 1; g_reclaim_value = v; return nondet_maybe_unit(); }
+  g_reclaim_writes = g_reclaim_writes + 1; g_reclaim_value = v; maybe_Unit r = nondet_maybe_unit(); g_w_ok = r.ok != 0; return r; }
 
 #define BOOL01(r) ((r) == 0 || (r) == 1)
 _Bool Senpai__writeMemhigh(Senpai *self, CgroupContext cgroup_ctx, int64_t value)
   __CPROVER_requires(cgroup_ctx == g_cg && ghost_exc == 0)
-  __CPROVER_assigns(g_high_writes, g_last_high_value, g_prev_high_value, g_last_high_is_tmp, g_last_tmp_secs)
+  __CPROVER_assigns(g_high_writes, g_last_high_value, g_prev_high_value, g_last_high_is_tmp, g_last_tmp_secs, g_w_ok)
   __CPROVER_ensures(BOOL01(__CPROVER_return_value))
+  /* "return if the cgroup is still valid": true exactly when the write went through */ /*@C18*/
+  __CPROVER_ensures(g_has_tmp.has ? (__CPROVER_return_value != 0) == (g_w_ok != 0) : 1)
   __CPROVER_ensures(g_has_tmp.has ? (g_high_writes == __CPROVER_old(g_high_writes) + 1 && g_last_high_value == value && g_prev_high_value == __CPROVER_old(g_last_high_value) &&
                                      (g_last_high_is_tmp != 0) == (g_has_tmp.val != 0)) : (g_high_writes == __CPROVER_old(g_high_writes) && !__CPROVER_return_value))
   __CPROVER_ensures(ghost_exc == 0);
 _Bool Senpai__resetMemhigh(Senpai *self, CgroupContext cgroup_ctx)
   __CPROVER_requires(cgroup_ctx == g_cg && ghost_exc == 0)
-  __CPROVER_assigns(g_high_writes, g_last_high_value, g_prev_high_value, g_last_high_is_tmp, g_last_tmp_secs, g_resets)
+  __CPROVER_assigns(g_high_writes, g_last_high_value, g_prev_high_value, g_last_high_is_tmp, g_last_tmp_secs, g_resets, g_w_ok)
   __CPROVER_ensures(BOOL01(__CPROVER_return_value))
+  __CPROVER_ensures(g_has_tmp.has ? (__CPROVER_return_value != 0) == (g_w_ok != 0) : 1) /*@C18*/
   __CPROVER_ensures(g_has_tmp.has ? (g_high_writes == __CPROVER_old(g_high_writes) + 1 && g_last_high_value == INT64_MAX && g_prev_high_value == __CPROVER_old(g_last_high_value) &&
                                      (g_last_high_is_tmp != 0) == (g_has_tmp.val != 0)) : (g_high_writes == __CPROVER_old(g_high_writes) && !__CPROVER_return_value))
   __CPROVER_ensures(ghost_exc == 0);
 _Bool Senpai__writeMemhighTimeout(Senpai *self, CgroupContext cgroup_ctx, int64_t value, dur_ms_t timeout)
   __CPROVER_requires(cgroup_ctx == g_cg)
-  __CPROVER_assigns(g_high_writes, g_last_high_value, g_prev_high_value, g_last_high_is_tmp, g_last_tmp_secs)
+  __CPROVER_assigns(g_high_writes, g_last_high_value, g_prev_high_value, g_last_high_is_tmp, g_last_tmp_secs, g_w_ok)
   __CPROVER_ensures(BOOL01(__CPROVER_return_value) && g_high_writes <= __CPROVER_old(g_high_writes) + 1 && g_high_writes >= __CPROVER_old(g_high_writes))
   /* timed_invoke(writeMemhigh): the write may not have happened yet (timeout: reported as `true`); if it did, it wrote `value` */
   __CPROVER_ensures(g_high_writes == __CPROVER_old(g_high_writes) || (g_last_high_value == value && g_prev_high_value == __CPROVER_old(g_last_high_value)));
@@ -63,8 +67,13 @@ _Bool Senpai__writeMemhighTimeout(Senpai *self, CgroupContext cgroup_ctx, int64_
 _Bool Senpai__reclaim(Senpai *self, CgroupContext cgroup_ctx, int64_t size)
   __CPROVER_requires(__CPROVER_is_fresh(self, sizeof(*self)) && cgroup_ctx == g_cg && ghost_exc == 0 && size >= 0 && size <= (1L << 56) &&
                      (!g_usage.has || (g_usage.val >= 0 && g_usage.val <= (1L << 56))) && g_high_writes <= (1UL << 40))
-  __CPROVER_assigns(g_high_writes, g_last_high_value, g_prev_high_value, g_last_high_is_tmp, g_last_tmp_secs, g_reclaim_writes, g_reclaim_value, g_resets)
+  __CPROVER_assigns(g_high_writes, g_last_high_value, g_prev_high_value, g_last_high_is_tmp, g_last_tmp_secs, g_reclaim_writes, g_reclaim_value, g_resets, g_w_ok)
   __CPROVER_ensures(BOOL01(__CPROVER_return_value))
+  /* through memory.reclaim: true exactly when that write went through; a poke: true only if its last write (the reset) did,
+     and - without a write timeout - false as soon as the poke itself fails (no reset is attempted on a vanished cgroup) */ /*@C18*/
+  __CPROVER_ensures((g_has_reclaim.has && g_has_reclaim.val) ? (__CPROVER_return_value != 0) == (g_w_ok != 0) : 1)
+  __CPROVER_ensures((!(g_has_reclaim.has && g_has_reclaim.val) && __CPROVER_return_value) ? g_w_ok : 1)
+  __CPROVER_ensures((!(g_has_reclaim.has && g_has_reclaim.val) && g_usage.has && g_has_tmp.has && self->memory_high_timeout_.ms <= 0 && g_high_writes == __CPROVER_old(g_high_writes) + 1) ? (!__CPROVER_return_value && !g_w_ok) : 1)
   __CPROVER_ensures((g_has_reclaim.has && g_has_reclaim.val) ? (g_reclaim_writes == __CPROVER_old(g_reclaim_writes) + 1 && g_reclaim_value == size &&
                                                                g_high_writes == __CPROVER_old(g_high_writes)) : g_reclaim_writes == __CPROVER_old(g_reclaim_writes))
   /* a poke that reports success was followed by the reset to max (the last value written is max) */ /*@C18*/
@@ -77,7 +86,7 @@ _Bool Senpai__reclaim(Senpai *self, CgroupContext cgroup_ctx, int64_t size)
 _Bool Senpai__tick__lambda_adjust(Senpai *self, CgroupContext cgroup_ctx, Senpai_CgroupState *state, double factor)
   __CPROVER_requires(__CPROVER_is_fresh(self, sizeof(*self)) && __CPROVER_is_fresh(state, sizeof(*state)) && cgroup_ctx == g_cg && ghost_exc == 0)
   __CPROVER_requires((!g_floor.has || (g_floor.val >= 0 && g_floor.val <= (1L << 56))) && (!g_ceil.has || (g_ceil.val >= 0 && g_ceil.val <= INT64_MAX)))
-  __CPROVER_assigns(*state, g_high_writes, g_last_high_value, g_prev_high_value, g_last_high_is_tmp, g_last_tmp_secs)
+  __CPROVER_assigns(*state, g_high_writes, g_last_high_value, g_prev_high_value, g_last_high_is_tmp, g_last_tmp_secs, g_w_ok)
   __CPROVER_ensures(BOOL01(__CPROVER_return_value))
   __CPROVER_ensures((!g_floor.has || !g_ceil.has) ? (g_high_writes == __CPROVER_old(g_high_writes) && !__CPROVER_return_value) : 1)
   /* every limit written: 4 KiB aligned, not more than a page below the floor, not above the ceiling unless floor > ceiling */ /*@C18*/
@@ -112,7 +121,7 @@ opt_Senpai_CgroupState Senpai__initializeCgroup(Senpai *s, CgroupContext c);
 opt_dur_us_t Senpai__getPressureTotalSome(Senpai *s, CgroupContext c);
 str_t CgroupPath__absolutePath(CgroupPath p);
 #define HAVOC_SP() do { HAVOC(g_cg); HAVOC(g_high_writes); HAVOC(g_reclaim_writes); HAVOC(g_last_high_value); HAVOC(g_floor); HAVOC(g_ceil); HAVOC(g_has_tmp); \
-  HAVOC(g_has_reclaim); HAVOC(g_sys); HAVOC(g_swap_max); HAVOC(g_swap_util); HAVOC(g_mem_some); HAVOC(g_io_some); HAVOC(g_usage); HAVOC(ghost_exc); } while (0)
+  HAVOC(g_has_reclaim); HAVOC(g_sys); HAVOC(g_swap_max); HAVOC(g_swap_util); HAVOC(g_mem_some); HAVOC(g_io_some); HAVOC(g_usage); HAVOC(ghost_exc); HAVOC(g_w_ok); } while (0)
 #define CANARY __CPROVER_assert(0, "canary: contract precondition satisfiable and function exit reachable")
 void h_writeMemhigh(void) { Senpai *s; CgroupContext c; int64_t v; HAVOC_SP(); Senpai__writeMemhigh(s, c, v); CANARY; }
 void h_resetMemhigh(void) { Senpai *s; CgroupContext c; HAVOC_SP(); Senpai__resetMemhigh(s, c); CANARY; }
